@@ -7,6 +7,7 @@ from typing import TYPE_CHECKING
 
 from .checkpoint_int import SnapshottingInt
 from .grammar.rule import Rule
+from .grammar.rule import SkipRule
 from .stack import Stack
 
 if TYPE_CHECKING:
@@ -77,7 +78,8 @@ class ParserState:
 
         assert self.parser
 
-        if skip := self.parser.rules.get("SKIP"):
+        skip = self.parser.rules.get("SKIP")
+        if isinstance(skip, SkipRule):
             return skip.parse(self, pairs)
 
         # Unoptimized whitespace and comment rules.
